@@ -8,7 +8,7 @@ from . import specs
 from .consteval import CS, TOP, Evaluator, Record, cs
 from .gcnf import (C, P, Table, Unsupported, consistent_valuations, normalise, show, show_atom,
                    unify_equal, inc)
-from .model import AnalysisError, Func, Repo, norm, walk_no_nested
+from .model import docstring_stripped, AnalysisError, Func, Repo, norm, walk_no_nested
 from .report import RuleResult
 from .walker import EMPTY, FactWalker
 
@@ -233,15 +233,214 @@ def rule_N1(repo: Repo) -> RuleResult:
     w.walk(f.node.body, EMPTY)
     if w.n < 2:
         raise AnalysisError("N1: _nb_reduce no longer applies reduce_func in two loops")
-    # the skipna start: first non-null element, all-null returns an element of the input
-    txt = [norm(n) for n in walk_no_nested(f.node) if isinstance(n, (ast.Assign, ast.Return))]
-    uses_first_non_null = any("_get_first_non_null(arr)" in t for t in txt)
-    if uses_first_non_null:
-        res.ok(f, f.node, "skipna start = _get_first_non_null(arr)", "accumulator starts from the first non-null element")
-    else:
-        res.bad(f, f.node, "skipna start", "with skipna and no initial value the accumulator no longer starts at the "
-                                          "first non-null element")
+    _n1_prologue(f, res)
+    _n1_first_non_null(repo, res)
     return res
+
+
+def _n1_first_non_null(repo: Repo, res: RuleResult):
+    """every definition of _get_first_non_null that scans (the pure-Python one and the scanning overload bodies):
+    returns (position, element) from inside the loop only under `not is_null(element)`, and (-1, <null>) after it."""
+    util = repo.mod("util")
+    cands = [fn for q, fn in util.functions.items()
+             if q.split("#")[0] == "_get_first_non_null" or q.startswith("jit_get_first_non_null.")]
+    n = 0
+    for fn in cands:
+        loops = [x for x in fn.node.body if isinstance(x, ast.For)]
+        if not loops:
+            continue        # non-scanning overload (booleans are never null): nothing to decide
+        n += 1
+        loop = loops[0]
+        it = loop.iter
+        tgt = loop.target
+        ok_iter = (isinstance(it, ast.Call) and norm(it.func) == "enumerate" and isinstance(tgt, ast.Tuple)
+                   and len(tgt.elts) == 2 and all(isinstance(e, ast.Name) for e in tgt.elts))
+        construct = f"{fn.qualname}: scan"
+        if not ok_iter:
+            res.bad(fn, loop, construct, "the scan is not 'for i, x in enumerate(arr)'")
+            continue
+        i, x = tgt.elts[0].id, tgt.elts[1].id
+        good = False
+        for st in loop.body:
+            if isinstance(st, ast.If) and not st.orelse and len(st.body) == 1 and isinstance(st.body[0], ast.Return):
+                t = st.test
+                neg = isinstance(t, ast.UnaryOp) and isinstance(t.op, ast.Not) and isinstance(t.operand, ast.Call) \
+                    and norm(t.operand.func) in ("is_null", "np.isnan") and norm(t.operand.args[0]) == x
+                rv = st.body[0].value
+                if neg and isinstance(rv, ast.Tuple) and [norm(e) for e in rv.elts] == [i, x]:
+                    good = True
+        tail = [st for st in fn.node.body[fn.node.body.index(loop) + 1:] if isinstance(st, ast.Return)]
+        tail_ok = bool(tail) and isinstance(tail[0].value, ast.Tuple) and norm(tail[0].value.elts[0]) == "-1"
+        others = [st for st in ast.walk(loop) if isinstance(st, ast.Return)]
+        if good and tail_ok and len(others) == 1:
+            res.ok(fn, loop, construct, f"returns ({i}, {x}) at the first non-null element, (-1, null) when there is none")
+        else:
+            res.bad(fn, loop, construct, "the scan does not return (position, element) exactly at the first element that is "
+                                         "not null, and (-1, null) when there is none")
+    if n < 2:
+        raise AnalysisError(f"N1: only {n} scanning definitions of _get_first_non_null found (floor 2)")
+
+
+def _n1_prologue(f: Func, res: RuleResult):
+    """Where does each reducing loop start, and from which accumulator?  Every path from the entry to a loop that
+    applies reduce_func is followed with forward substitution (tuple unpacking included):
+      no initial value, skipna   : (loc, out) = _get_first_non_null(arr); the all-null case (loc == -1) has left
+                                   the function returning an element of the input; the loop starts at loc + 1
+      no initial value, no skipna: accumulator arr[0], loop starts at 1
+      initial value given        : accumulator initial_value, loop starts at 0
+    and the loop visits arr[j] for j in range(start, len(arr))."""
+    from .paths import enumerate_paths
+    params = f.named_params
+    if len(params) < 4:
+        raise AnalysisError("N1: _nb_reduce signature changed (expected reduce_func, arr, skipna, initial_value)")
+    arr, skip, init = params[1], params[2], params[3]
+
+    def sym(e, env):
+        if isinstance(e, ast.Name):
+            return env.get(e.id, e.id)
+        if isinstance(e, ast.Constant):
+            return repr(e.value)
+        if isinstance(e, ast.BinOp) and isinstance(e.op, ast.Add):
+            a, b = sorted([sym(e.left, env), sym(e.right, env)])
+            return f"({a} + {b})"
+        if isinstance(e, ast.Subscript):
+            return f"{sym(e.value, env)}[{sym(e.slice, env)}]"
+        if isinstance(e, ast.Call):
+            return f"{norm(e.func)}({', '.join(sym(a, env) for a in e.args)})"
+        if isinstance(e, ast.UnaryOp) and isinstance(e.op, ast.USub):
+            return "-" + sym(e.operand, env)
+        return norm(e)
+
+    def assign(st, env):
+        if not isinstance(st, ast.Assign) or len(st.targets) != 1:
+            if isinstance(st, ast.AugAssign) and isinstance(st.target, ast.Name):
+                env[st.target.id] = f"?{st.target.id}"
+            return
+        t, v = st.targets[0], st.value
+        if isinstance(t, ast.Name):
+            env[t.id] = sym(v, env)
+        elif isinstance(t, ast.Tuple) and all(isinstance(x, ast.Name) for x in t.elts):
+            if isinstance(v, ast.Tuple) and len(v.elts) == len(t.elts):
+                vals = [sym(x, env) for x in v.elts]
+                for x, val in zip(t.elts, vals):
+                    env[x.id] = val
+            else:
+                base = sym(v, env)
+                for i, x in enumerate(t.elts):
+                    env[x.id] = f"{base}.{i}"
+
+    def decided(p, pred):
+        """True/False if the path fixed the test recognised by pred, else None"""
+        for t, pol in p.conds:
+            if isinstance(t, ast.AST):
+                r = pred(t)
+                if r is not None:
+                    return pol if r else (not pol)
+        return None
+
+    def is_init_none(t):
+        if isinstance(t, ast.Compare) and len(t.ops) == 1 and isinstance(t.left, ast.Name) and t.left.id == init \
+                and isinstance(t.comparators[0], ast.Constant) and t.comparators[0].value is None:
+            return True if isinstance(t.ops[0], ast.Is) else (False if isinstance(t.ops[0], ast.IsNot) else None)
+        return None
+
+    def is_skip(t):
+        if isinstance(t, ast.Name) and t.id == skip:
+            return True
+        return None
+
+    fnn = f"_get_first_non_null({arr})"
+    n_loops = 0
+    assigned = {n.id for n in ast.walk(f.node) if isinstance(n, ast.Name) and isinstance(n.ctx, ast.Store)}
+
+    def feasible(p):
+        """a path that decides the same test over never-assigned names both ways is infeasible"""
+        seen = {}
+        for t, pol in p.conds:
+            if not isinstance(t, ast.AST) or ({n.id for n in ast.walk(t) if isinstance(n, ast.Name)} & assigned):
+                continue
+            k = norm(t)
+            if seen.setdefault(k, pol) != pol:
+                return False
+        return True
+
+    all_paths = [p for p in enumerate_paths(docstring_stripped(f.node.body)) if feasible(p)]
+    for p in all_paths:
+        env = {}
+        init_none = decided(p, is_init_none)
+        skipna = decided(p, is_skip)
+        case = ("initial value given" if init_none is False else
+                "no initial value, skipna" if init_none and skipna else
+                "no initial value, no skipna" if init_none and skipna is False else "undetermined")
+        for st in p.stmts:
+            if isinstance(st, ast.For) and any(isinstance(n, ast.Call) and isinstance(n.func, ast.Name)
+                                                and n.func.id == params[0] for n in ast.walk(st)):
+                n_loops += 1
+                construct = f"{norm(st.iter)} [{case}]"
+                it = st.iter
+                ok_shape = (isinstance(it, ast.Call) and norm(it.func) == "range" and len(it.args) == 2
+                            and sym(it.args[1], {}) == f"len({arr})" and isinstance(st.target, ast.Name))
+                if not ok_shape:
+                    res.bad(f, st, construct, "the reducing loop is not 'for j in range(start, len(arr))'")
+                    continue
+                start, out = sym(it.args[0], env), env.get("out", "out")
+                j = st.target.id
+                elem_ok = any(isinstance(n, ast.Assign) and isinstance(n.value, ast.Subscript)
+                              and sym(n.value, {}) == f"{arr}[{j}]" for n in st.body) or \
+                    any(isinstance(n, ast.Subscript) and sym(n, {}) == f"{arr}[{j}]" for b in st.body for n in ast.walk(b))
+                want = {"initial value given": ("0", init),
+                        "no initial value, skipna": ("(" + " + ".join(sorted([f"{fnn}.0", "1"])) + ")", f"{fnn}.1"),
+                        "no initial value, no skipna": ("1", f"{arr}[0]")}.get(case)
+                if want is None:
+                    res.bad(f, st, construct, "a reducing loop is reached without deciding skipna / initial_value")
+                elif (start, out) != want:
+                    res.bad(f, st, construct, f"loop starts at {start} with accumulator {out}; the {case} case requires "
+                                              f"start {want[0]} with accumulator {want[1]} (each element reduced exactly once)")
+                elif not elem_ok:
+                    res.bad(f, st, construct, f"the loop body does not read {arr}[{j}]")
+                else:
+                    res.ok(f, st, construct, f"start {start}, accumulator {out}")
+                break
+            assign(st, env)
+    # second pass (simple and explicit): the skipna/no-initial-value loop paths must carry the decision loc != -1
+    for p in all_paths:
+        if not (decided(p, is_init_none) and decided(p, is_skip)):
+            continue
+        env = {}
+        reached_loop = None
+        for st in p.stmts:
+            if isinstance(st, ast.For) and any(isinstance(n, ast.Call) and isinstance(n.func, ast.Name)
+                                                and n.func.id == params[0] for n in ast.walk(st)):
+                reached_loop = st
+                break
+            assign(st, env)
+        excluded = False
+        for t, pol in p.conds:
+            if isinstance(t, ast.Compare) and len(t.ops) == 1:
+                l, r = sym(t.left, env), sym(t.comparators[0], env)
+                if {l, r} == {f"{fnn}.0", "-1"}:
+                    if (isinstance(t.ops[0], ast.Eq) and pol is False) or (isinstance(t.ops[0], ast.NotEq) and pol is True):
+                        excluded = True
+                elif l == f"{fnn}.0" and r == "0" and ((isinstance(t.ops[0], ast.Lt) and pol is False)
+                                                       or (isinstance(t.ops[0], ast.GtE) and pol is True)):
+                    excluded = True
+        if reached_loop is not None:
+            construct = "all-null input leaves before the skipna loop"
+            if excluded:
+                res.ok(f, reached_loop, construct, "the loop is reached only with a first non-null position != -1")
+            else:
+                res.bad(f, reached_loop, construct,
+                        "with skipna and no initial value an all-null input (first non-null position -1) reaches the reducing loop: "
+                        "every element is then combined with an undefined accumulator instead of returning a null")
+        elif p.exit == "return" and p.exit_node is not None and p.exit_node.value is not None:
+            rv = sym(p.exit_node.value, env)
+            construct = f"return {rv} [all-null input]"
+            if rv.startswith(f"{arr}[") or rv == f"{fnn}.1":
+                res.ok(f, p.exit_node, construct, "an element of the input (a null) is returned")
+            else:
+                res.bad(f, p.exit_node, construct, "the all-null case returns something that is not an element of the input")
+    if n_loops < 2:
+        raise AnalysisError("N1: fewer than two paths reach a reducing loop in _nb_reduce")
 
 
 # ------------------------------------------------------------------------------- T3
